@@ -172,3 +172,23 @@ Proof.
   inversion H; subst v; clear H. cbn [v_keys].
   subst sorted. subst sk. cbv beta in *. rewrite Hk. reflexivity.
 Qed.
+
+(** on ASCII identifiers the UTF-8 aware [lowercase] is the byte-wise ASCII lowercasing *)
+Fixpoint ascii_only (s : string) : bool :=
+  match s with EmptyString => true | String c r => (N_of_ascii c <? 128)%N && ascii_only r end.
+
+Lemma lower2_ascii n1 n2 : (n1 < 128)%N -> lower2 n1 n2 = None.
+Proof.
+  intros H. unfold lower2.
+  replace (n1 =? 195)%N with false by (symmetry; apply N.eqb_neq; lia).
+  replace (n1 =? 206)%N with false by (symmetry; apply N.eqb_neq; lia).
+  replace (n1 =? 208)%N with false by (symmetry; apply N.eqb_neq; lia). reflexivity.
+Qed.
+
+Theorem lowercase_ascii s : ascii_only s = true -> lowercase s = str_map to_lower s.
+Proof.
+  induction s as [|c1 r1 IH]; intros H; [reflexivity|].
+  cbn [ascii_only] in H. apply Bool.andb_true_iff in H. destruct H as [Hc Hr]. apply N.ltb_lt in Hc.
+  cbn [lowercase str_map]. destruct r1 as [|c2 r2]; [reflexivity|].
+  rewrite (lower2_ascii _ _ Hc). f_equal. apply IH. exact Hr.
+Qed.
